@@ -19,7 +19,7 @@ func (e *env) byteMutants(bi int, vb *vblock) {
 	enc := vb.enc
 	nbits := len(enc) * 8
 	// bit flips: every bit of small blocks, a sample of large ones
-	limit := c.Pick(3000, 12000)
+	limit := c.Pick(1200, 12000)
 	if nbits <= limit {
 		for b := 0; b < nbits && !e.dead(); b++ {
 			e.feed("mutant_bitflip", fmt.Sprintf("block=%d bit=%d", bi, b), gen.FlipBit(clone(enc), b), vb)
@@ -40,8 +40,8 @@ func (e *env) byteMutants(bi int, vb *vblock) {
 	}
 	// truncation at every length (sampled for large)
 	step := 1
-	if len(enc) > c.Pick(1500, 6000) {
-		step = len(enc)/c.Pick(1500, 6000) + 1
+	if len(enc) > c.Pick(300, 6000) {
+		step = len(enc)/c.Pick(300, 6000) + 1
 	}
 	for n := 0; n < len(enc) && !e.dead(); n += step {
 		k := n
@@ -54,7 +54,7 @@ func (e *env) byteMutants(bi int, vb *vblock) {
 		e.feed("mutant_truncate", fmt.Sprintf("block=%d len=%d", bi, k), clone(enc[:k]), vb)
 	}
 	// byte set / insert / delete / trailing garbage
-	for i := 0; i < c.Pick(300, 1500) && !e.dead(); i++ {
+	for i := 0; i < c.Pick(100, 1500) && !e.dead(); i++ {
 		off := r.Intn(len(enc))
 		m := clone(enc)
 		var desc string
@@ -86,7 +86,7 @@ func (e *env) byteMutants(bi int, vb *vblock) {
 	var walk func(it *bfix.Item, off int, depth int)
 	n := 0
 	walk = func(it *bfix.Item, off int, depth int) {
-		if e.dead() || n > c.Pick(400, 3000) {
+		if e.dead() || n > c.Pick(300, 3000) {
 			return
 		}
 		tag := it.Raw[0]
@@ -141,11 +141,17 @@ func (e *env) byteMutants(bi int, vb *vblock) {
 			n++
 			e.feed("mutant_length_field", fmt.Sprintf("block=%d off=%d huge", bi, off), m, vb)
 		}
-		if it.List && depth < 3 {
+		if it.List && depth < 6 {
 			o := off + hdrLen
 			for _, ch := range it.Items {
 				walk(ch, o, depth+1)
 				o += len(ch.Raw)
+			}
+		} else if !it.List && !it.Nil && len(it.Str) >= 2 && it.Str[0] >= 0xc0 && depth < 6 {
+			// a byte string that itself holds one RLP list (votes, BTP digest, result):
+			// mutate the length fields inside it too
+			if in, rest, err := bfix.Split(it.Str); err == nil && len(rest) == 0 && in.List {
+				walk(in, off+hdrLen, depth+1)
 			}
 		}
 	}
@@ -572,12 +578,12 @@ func (e *env) rlpTree(depth int) []byte {
 
 func (e *env) hostile() {
 	c, r := e.c, e.r
-	ns := c.Pick(3000, 12000)
+	ns := c.Pick(1500, 12000)
 	for i := 0; i < ns && !e.dead(); i++ {
 		desc, in := e.structured(i)
 		e.feed("hostile_structured", fmt.Sprintf("#%d%s", i, desc), in, nil)
 	}
-	for i := 0; i < c.Pick(1500, 6000) && !e.dead(); i++ {
+	for i := 0; i < c.Pick(500, 6000) && !e.dead(); i++ {
 		// header-shaped: a list starting with version 2
 		var items [][]byte
 		items = append(items, bfix.EncInt(2))
@@ -590,7 +596,7 @@ func (e *env) hostile() {
 		}
 		e.feed("hostile_rlp_tree", fmt.Sprintf("#%d", i), in, nil)
 	}
-	for i := 0; i < c.Pick(1500, 6000) && !e.dead(); i++ {
+	for i := 0; i < c.Pick(500, 6000) && !e.dead(); i++ {
 		in := gen.Bytes(r, r.Intn(gen.Pick(r, 8, 64, 600, 4096)))
 		if len(in) > 2 && r.Intn(2) == 0 {
 			// make it look like a long list with version 2
